@@ -75,7 +75,9 @@ func c13Lexical(t *rapid.T) *DCase {
 		case 0:
 			return ast.Str("a\\nb")
 		case 1:
-			return ast.Str(rapid.SampledFrom([]string{"tab\\tx\\\\y", "C:\\\\dir\\\\", "\\\\", "\\\\\\\\", "end\\n", "\\t", "a\\\\\\n"}).Draw(t, "escstr"))
+			return ast.Str(rapid.SampledFrom([]string{"tab\\tx\\\\y", "C:\\\\dir\\\\", "\\\\", "\\\\\\\\", "end\\n", "\\t", "a\\\\\\n",
+				// an escaped backslash directly followed by the letters n and t (no line feed, no tab)
+				"a\\\\nb", "C:\\\\new\\\\table", "\\\\n", "\\\\t", "\\\\\\\\n\\\\\\t"}).Draw(t, "escstr"))
 		case 2:
 			return ast.Str("it's")
 		case 3:
